@@ -239,5 +239,35 @@ func ruleR15_2(p *Program, r *Report) {
 			t := NewErrTrack(p, fn, c, KindNonNil, tr)
 			r.Check(t.StoredTo(recv, "."+tr.Sticky), "R15.2", shortFn(fn)+"|record "+calleeLabel(c), p.InstrPos(c), "the inflater's error is recorded in ."+tr.Sticky, "not stored: a later Read would touch the failed source again")
 		}
+		// every failing source call of Read is recorded before Read returns it (so the next Read replays it)
+		lab2 := newLabeler()
+		for _, c := range allCalls(fn) {
+			if ok, _ := p.isSrcCall(c); !ok {
+				continue
+			}
+			key := shortFn(fn) + "|sticky " + lab2.get(calleeLabel(c))
+			if len(errorResults(c)) == 0 {
+				continue
+			}
+			t := NewErrTrack(p, fn, c, KindNonNil, tr)
+			isRet := func(in ssa.Instruction) bool {
+				ret, ok := in.(*ssa.Return)
+				if !ok {
+					return false
+				}
+				e := returnErr(ret)
+				return e != nil && !isNil(e)
+			}
+			rec := func(in ssa.Instruction) bool {
+				st, ok := in.(*ssa.Store)
+				return ok && isStickyStore(st, recv, tr.Sticky) && !isNil(st.Val)
+			}
+			found, hit, path := t.Find(isRet, rec)
+			if found {
+				r.Fail("R15.2", key, p.InstrPos(c), "a failure of this source call is recorded in ."+tr.Sticky+" before Read returns an error", "the return at "+p.InstrPos(hit)+" is reached (blocks "+fmtInts(path)+") without recording: the next Read would not repeat the error")
+			} else {
+				r.OK("R15.2", key, p.InstrPos(c), "a failure of this source call is recorded in ."+tr.Sticky+" before Read returns an error")
+			}
+		}
 	}
 }
